@@ -34,6 +34,8 @@ module N :
 
   val div_eucl : coq_N -> coq_N -> coq_N * coq_N
 
+  val div : coq_N -> coq_N -> coq_N
+
   val modulo : coq_N -> coq_N -> coq_N
 
   val coq_lor : coq_N -> coq_N -> coq_N
@@ -43,6 +45,8 @@ module N :
   val ldiff : coq_N -> coq_N -> coq_N
 
   val coq_lxor : coq_N -> coq_N -> coq_N
+
+  val shiftl : coq_N -> coq_N -> coq_N
 
   val to_nat : coq_N -> nat
 
